@@ -9,8 +9,15 @@ caller is `create_app`, `app.py:188`, with `all_csrf=True`, i.e. at every server
 Strings are `List Char`.  The MAC – `str(base64.b64encode(hmac_sha1(secret, ·)))` – is an
 abstract function `mac`; HMAC itself is not modelled.  HMAC's `update` calls concatenate,
 so the authenticated message is `cookie ++ service ++ [origin] ++ salt` with no separators –
-the model keeps exactly that.  `urllib.parse.quote/unquote` around the token is not
-modelled: tokens here are the unquoted strings `check` works with.
+the model keeps exactly that.
+
+Transport encoding: `generate_token` returns `urllib.parse.quote(token)` and the first thing
+`check` does with the submitted text is `token = urllib.parse.unquote(csrf_token)` (csrf.py:146);
+every later step – the re-use lookup, the recorded `jti`, salt and signature – works on that
+decoded token.  `unquote` is a parameter of the model (`Cfg.unquote`); nothing is assumed about
+it except that it is a function.  `check` below is the code after the decoding step,
+`checkWire` is the whole of `CsrfProtection.check`; the driver instantiates `unquote` with
+`pctDecode` (percent-decoding of ASCII escapes), validated by the csrf_seq channel.
 -/
 namespace DashLive.Csrf
 
@@ -24,6 +31,8 @@ structure Cfg where
   mac : Str → Str
   /-- `DASH.STRICT_CSRF_ORIGIN` (csrf.py:101, 171) -/
   strictOrigin : Bool
+  /-- `urllib.parse.unquote`: submitted (wire) text ↦ token -/
+  unquote : Str → Str := id
 
 /-- what `sig.update(...)` is fed, in order (csrf.py:103-115 and 172-180) -/
 def message (strict : Bool) (cookie service origin salt : Str) : Str :=
@@ -69,6 +78,12 @@ def check (c : Cfg) (st : St) (service : Str) (cookie : Option Str) (origin toke
       if sig = c.mac (message c.strictOrigin ck service origin salt) then (st', .accepted)
       else (st', .badSignature)
 
+/-- the whole of `CsrfProtection.check(service, csrf_token)`: decode the submitted text first
+(csrf.py:146), then everything else – in particular the consumed-token identity is the
+**decoded** token, so every spelling of one token shares one replay record -/
+def checkWire (c : Cfg) (st : St) (service : Str) (cookie : Option Str) (origin wire : Str) : St × Result :=
+  check c st service cookie origin (c.unquote wire)
+
 /-- `Token.prune_database(all_csrf=True)`: every CSRF row is deleted -/
 def prune (_ : St) : St := { used := [] }
 
@@ -95,6 +110,43 @@ def step (c : Cfg) (st : St) : Ev → St × Option Result
 def run (c : Cfg) : St → List Ev → List (Ev × Option Result)
   | _, [] => []
   | st, e :: es => let (st', res) := step c st e; (e, res) :: run c st' es
+
+/-- a history as it arrives on the wire: `check` events carry the submitted text -/
+inductive WireEv
+  | check (service : Str) (cookie : Option Str) (origin wire : Str)
+  | prune
+  deriving Repr
+
+def WireEv.isPrune : WireEv → Bool
+  | .prune => true
+  | _ => false
+
+/-- what `CsrfProtection.check` makes of a wire event -/
+def WireEv.decode (c : Cfg) : WireEv → Ev
+  | .check svc ck o w => .check svc ck o (c.unquote w)
+  | .prune => .prune
+
+/-- run a wire history: every event is decoded, then handled as above
+(`step c st (e.decode c)` is `checkWire` for a check event) -/
+def runWire (c : Cfg) (st : St) (evs : List WireEv) : List (Ev × Option Result) :=
+  run c st (evs.map (WireEv.decode c))
+
+/-- percent-decoding as the driver instantiates `unquote`: `%XY` with two hex digits (either
+case) becomes the character with that code, anything else is kept.  (Python additionally
+UTF-8-decodes escapes ≥ 0x80; the harness only uses ASCII escapes.) -/
+def hexVal (c : Char) : Option Nat :=
+  if '0' ≤ c ∧ c ≤ '9' then some (c.toNat - '0'.toNat)
+  else if 'a' ≤ c ∧ c ≤ 'f' then some (c.toNat - 'a'.toNat + 10)
+  else if 'A' ≤ c ∧ c ≤ 'F' then some (c.toNat - 'A'.toNat + 10)
+  else none
+
+def pctDecode : Str → Str
+  | [] => []
+  | '%' :: a :: b :: rest =>
+    match hexVal a, hexVal b with
+    | some x, some y => Char.ofNat (x * 16 + y) :: pctDecode rest
+    | _, _ => '%' :: pctDecode (a :: b :: rest)
+  | ch :: rest => ch :: pctDecode rest
 
 /-- how often `t` was accepted in an annotated history -/
 def acceptedCount (t : Str) (h : List (Ev × Option Result)) : Nat :=
